@@ -111,10 +111,17 @@ class ApiRun:
                     # on_thread_stop() hook (that is where an emitter releases what on_thread_start() acquired)
                     self._rec["died"] = True
                     raise RuntimeError("scripted emitter failure")
-                path = f"{self.watch.path}/i{self._idx}e{self._n}"
-                self._n += 1
+                if step[0] == "rep" and self._n >= 2:
+                    # an event equal to the one queued before the previous one (X, Y, X): not a *consecutive* duplicate,
+                    # so the queue must accept it and every registered handler must get it a second time
+                    path = f"{self.watch.path}/i{self._idx}e{self._n - 2}"
+                    occ = 1
+                else:
+                    path = f"{self.watch.path}/i{self._idx}e{self._n}"
+                    self._n += 1
+                    occ = 0
                 ev = wev.FileCreatedEvent(path)
-                q = {"inst": self._idx, "key": self._rec["key"], "path": path, "q0": sim.next_seq()}
+                q = {"inst": self._idx, "key": self._rec["key"], "path": path, "occ": occ, "q0": sim.next_seq()}
                 hist["queued"].append(q)
                 self.queue_event(ev)
                 q["q1"] = sim.next_seq()
@@ -252,30 +259,35 @@ class ApiRun:
 def oracle_c04(run: ApiRun):
     v = []
     h = run.hist
-    qby = {q["path"]: q for q in h["queued"]}
+    # an emitter may queue an event equal to an earlier one of its own with a different event in between ("rep"
+    # steps): records of one path form a list in queue order; a callback is attributed most leniently
+    qall = {}
+    for q in h["queued"]:
+        qall.setdefault(q["path"], []).append(q)
     seen = {}
     for cb in h["callbacks"]:
         k = (cb["h"], cb["path"])
         seen[k] = seen.get(k, 0) + 1
-    dups = [k for k, n in seen.items() if n > 1]
+    dups = [k for k, n in seen.items() if n > len(qall.get(k[1], [None]))]
     if dups:
-        v.append(Violation("duplicate", "C04:duplicate-delivery", f"(handler, event) delivered more than once: {dups[:4]}"))
+        v.append(Violation("duplicate", "C04:duplicate-delivery", f"(handler, event) delivered more often than it was queued: {dups[:4]}"))
     # order per (handler, emitter instance)
     last = {}
     for cb in h["callbacks"]:
-        q = qby.get(cb["path"])
-        if q is None:
+        qs = [q for q in qall.get(cb["path"], []) if q["q0"] < cb["c0"]]
+        if not qs:
             v.append(Violation("invented", "C04:unknown-event", f"callback for an event nobody queued: {cb}"))
             continue
-        k = (cb["h"], q["inst"])
-        if k in last and last[k] > q["q0"]:
+        k = (cb["h"], qs[0]["inst"])
+        if k in last and last[k] > qs[-1]["q0"]:
             v.append(Violation("order", "C04:out-of-order", f"handler {cb['h']} got {cb['path']} after a later event of the same watch"))
-        last[k] = max(last.get(k, 0), q["q0"])
+        last[k] = max(last.get(k, 0), qs[0]["q0"])
     # MUST-NOT: handler certainly not registered for the watch throughout [queued, callback]
     for cb in h["callbacks"]:
-        q = qby.get(cb["path"])
-        if q is None:
+        qs = [q for q in qall.get(cb["path"], []) if q["q0"] < cb["c0"]]
+        if not qs:
             continue
+        q = qs[0]
         if run.certainly_not_registered(cb["h"], q["key"], q["q0"], cb["c0"]):
             never = not run.adders(cb["h"], q["key"])
             sig = "C04:delivered-to-never-registered-handler" if never else "C04:delivered-while-certainly-unregistered"
@@ -283,18 +295,19 @@ def oracle_c04(run: ApiRun):
     # MUST: certainly registered from before the event was queued until the barrier, observer running
     starts = [c for c in h["calls"] if c["op"] == "start" and not c.get("exc") and c.get("ret") is not None]
     stops = [c for c in h["calls"] if c["op"] == "stop"]
-    got = {(cb["h"], cb["path"]): cb["c0"] for cb in h["callbacks"]}
     for b in h["barriers"]:
         if not any(s["ret"] < b for s in starts) or any(s["inv"] < b for s in stops):
             continue
-        for q in h["queued"]:
-            if q.get("q1") is None or q["q1"] >= b:
-                continue
+        for path, qs in qall.items():
             for hid in range(run.case["handlers"]):
-                if run.certainly_registered(hid, q["key"], q["q0"], b):
-                    c0 = got.get((hid, q["path"]))
-                    if c0 is None or c0 > b:
-                        v.append(Violation("must", "C04:not-delivered-by-barrier", f"handler {hid} certainly registered for {q['key']} never received {q['path']} (queued at {q['q0']}) by the barrier at {b}"))
+                need = [q for q in qs if q.get("q1") is not None and q["q1"] < b and run.certainly_registered(hid, q["key"], q["q0"], b)]
+                if not need:
+                    continue
+                have = sum(1 for cb in h["callbacks"] if cb["h"] == hid and cb["path"] == path and cb["c0"] <= b)
+                if have < len(need):
+                    q = need[have]
+                    sig = "C04:not-delivered-by-barrier" + (":repeated-after-other-event" if q.get("occ") else "")
+                    v.append(Violation("must", sig, f"handler {hid} certainly registered for {q['key']} received {path} {have} time(s) by the barrier at {b} although it was queued {len(need)} time(s) (at {[x['q0'] for x in need]}), never as an immediate repeat"))
     return v
 
 
